@@ -5,6 +5,9 @@
 (* imports pygopherd) for every name of the case space, the configured decompressors of the   *)
 (* "full" world, and the copy block size read from handlers/base.py.                          *)
 Names == {"n_txt", "n_gz", "n_none"}
+LongNames == {"n_txt"}
+HistNames == {"n_txt", "n_gz"}
+HistFams == {"H", "SP"}
 RowShipped(n) == CASE n = "n_txt" -> [type |-> "text/plain", enc |-> "none"]
             [] n = "n_gz" -> [type |-> "text/plain", enc |-> "gzip"]
             [] n = "n_none" -> [type |-> "none", enc |-> "none"]
